@@ -387,7 +387,7 @@ def unit_init_defaults(tier=None, seed=None):
 def unit_load_from_file(tier=None, seed=None):
     S = Session("C18", "load_model_from_file", "nanite.model.logic:load_model_from_file")
     st = {}
-    IMPORT_OUTCOMES = ["module_not_found", "valid", "invalid"]
+    IMPORT_OUTCOMES = ["module_not_found", "syntax_error", "valid", "invalid"]
 
     def setup(I):
         logic = I.module("nanite.model.logic")
@@ -406,14 +406,44 @@ def unit_load_from_file(tier=None, seed=None):
         st.update(seq0=seq0, dwb0=dwb0, outcome=outcome, register=register, reg=reg, snap=snap, d=d,
                   during_import=None)
 
-        def import_module(I, stem):
+        # ASSUMED contracts of the two import mechanisms of the standard library.  Which one nanite uses is its
+        # business; what they guarantee differs: import_module(name) returns WHATEVER module has that name (first hit
+        # in sys.modules, then on sys.path), a spec built from a file location executes THAT file.
+        def run_import(I, origin):
             # during the import the directory of the file must be on sys.path
             cur = I.sys_state["path"]
             st["during_import"] = (cur.term, I.sys_state["dont_write_bytecode"])
             if outcome == "module_not_found":
+                if origin == "file":
+                    I.raise_py("FileNotFoundError", "no such file")
                 I.raise_py("ModuleNotFoundError", "no module")
-            return mk_module(I, "none" if outcome == "valid" else "names_dup")
-        I.lib["importlib.import_module"] = import_module
+            if outcome == "syntax_error":
+                I.raise_py("SyntaxError", "invalid syntax")
+            m = mk_module(I, "none" if outcome == "valid" else "names_dup")
+            m.attrs["__vf_origin__"] = origin
+            return m
+        I.lib["importlib.import_module"] = lambda I, stem: run_import(I, "module of that name (cache / search path)")
+        speccls = sx.ClassVal("ModuleSpec", [sx.OBJECT], {})
+        loadercls = sx.ClassVal("SourceFileLoader", [sx.OBJECT], {})
+
+        def spec_from_file_location(I, name, location=None, **k):
+            st["spec_location"] = location
+            sp = sx.Obj(speccls)
+            sp.attrs.update(name=name, origin=location, loader=sx.Obj(loadercls))
+            return sp
+        I.lib["importlib.util.spec_from_file_location"] = spec_from_file_location
+
+        def module_from_spec(I, spec):
+            m = sx.Obj(sx.ClassVal("module", [sx.OBJECT], {}))
+            m.attrs["__spec__"] = spec
+            return m
+        I.lib["importlib.util.module_from_spec"] = module_from_spec
+
+        def exec_module(I, self, module):
+            real = run_import(I, "file")
+            module.attrs.update(real.attrs)
+            module.cls = real.cls
+        loadercls.ns["exec_module"] = sx.Builtin("exec_module", exec_module)
         return logic.env.vars["load_model_from_file"], [SAtom(z3.Int("path"), "path")], dict(register=register)
 
     def post(S, out):
@@ -429,9 +459,10 @@ def unit_load_from_file(tier=None, seed=None):
         S.ensure("dont_write_bytecode_restored", V.bterm(dwb) == st["dwb0"])
         if st["during_import"] is not None:
             S.ensure("dir_on_path_during_import", z3.Contains(st["during_import"][0], z3.Unit(st["d"])))
-        if outcome == "module_not_found":
+        if outcome in ("module_not_found", "syntax_error"):
+            # "a file that cannot be imported raises the documented import error"
             S.ensure("import_failure_raises_ModelImportError", out.raises("ModelImportError"), case=case,
-                     witness=out.value.cls.name if out.kind == "raise" else "returned")
+                     witness=(out.value.cls.name if out.kind == "raise" else "returned") + "." + outcome)
             S.ensure("registry_unchanged_on_failure", _registry_unchanged(st["reg"], st["snap"]), case=case)
         elif outcome == "invalid":
             S.ensure("invalid_module_rejected", is_model_error(I, out), case=case)
@@ -443,6 +474,11 @@ def unit_load_from_file(tier=None, seed=None):
             S.ok("valid_file_loads")
             md = out.value
             S.ensure("returns_NaniteFitModel", isinstance(md, sx.Obj) and md.cls.name == "NaniteFitModel")
+            # "a model loaded from a file behaves like the same code shipped with the package": the module behind the
+            # model is the given file, not some other module that happens to have the same name
+            mod_ = md.attrs.get("module") if isinstance(md, sx.Obj) else None
+            S.ensure("loads_the_given_file", isinstance(mod_, sx.Obj) and mod_.attrs.get("__vf_origin__") == "file",
+                     case=dict(case, module_is=getattr(mod_, "attrs", {}).get("__vf_origin__")), witness="same_name")
             e = st["reg"].d.get("K")
             if st["register"]:
                 S.ensure("registered_when_asked", e is not None and e[0] is True
@@ -468,6 +504,30 @@ def replay_load(ob):
         good.write_text(src.read_text().replace('"hans_peter"', '"vf_c18_model"'))
         missing = tmp / "vf_c18_does_not_exist.py"
         results = []
+        if "loads_the_given_file" in clause:
+            (tmp / "a").mkdir()
+            (tmp / "b").mkdir()
+            for sub, key in (("a", "vf_c18_first"), ("b", "vf_c18_second")):
+                (tmp / sub / "vf_c18_same_name.py").write_text(src.read_text().replace('"hans_peter"', f'"{key}"'))
+            try:
+                k1 = nm.load_model_from_file(tmp / "a" / "vf_c18_same_name.py").model_key
+                k2 = nm.load_model_from_file(tmp / "b" / "vf_c18_same_name.py").model_key
+            finally:
+                sys.modules.pop("vf_c18_same_name", None)
+            return {"confirmed": k2 != "vf_c18_second", "input": "two model files with the same file name in two folders",
+                    "observed": {"first": k1, "second": k2}, "required": "the second call returns the second file's model"}
+        if "ModelImportError" in clause and "syntax" in (ob.witness or ""):
+            broken = tmp / "vf_c18_broken.py"
+            broken.write_text("def model(:\n")
+            try:
+                nm.load_model_from_file(broken)
+                got = "returned"
+            except ModelImportError:
+                got = "ModelImportError"
+            except BaseException as exc:
+                got = type(exc).__name__
+            return {"confirmed": got != "ModelImportError", "input": "a model file with a syntax error",
+                    "observed": got, "required": "ModelImportError"}
         for label, path, pre_on_path in (("missing file", missing, False), ("missing file, dir already on sys.path", missing, True),
                                          ("valid file", good, False), ("valid file, dir already on sys.path", good, True)):
             keep_path = list(sys.path)
